@@ -14,6 +14,10 @@ for pid in ids:
     c = json.load(open(p))
     if c.get("disabled"):
         continue
+    # claim a property only once its check has produced a clean evidence file on this tree
+    ev = os.path.join(V, "evidence", pid + ".json")
+    if not os.path.exists(ev) or json.load(open(ev)).get("violations", 1) != 0:
+        continue
     claimed.add(pid)
     checks.append({
         "property_id": pid,
